@@ -23,10 +23,22 @@ def check(ctx, rule="R8", key_prefix="recursion", roots=None):
         n += 1
         names = sorted(f.name for f in fns)
         if len(fns) != 1:
-            ctx.inconclusive(rule, "%s|%s" % (key_prefix, "+".join(names)), P.rel(fns[0].file),
-                             "mutual recursion %s: no guard idiom known" % names)
-            continue
-        f = fns[0]
+            # a cycle through static helpers of one function: expand the helpers into it and treat the
+            # result as direct recursion (the guard and the growing argument are then in one body)
+            f = None
+            for cand in fns:
+                others = [g for g in fns if g is not cand]
+                if all(g.static and g.file == cand.file for g in others):
+                    v = P.inlined(cand, 3)
+                    if v.calls(cand.name) and not any(v.calls(g.name) for g in others):
+                        f = v
+                        break
+            if f is None:
+                ctx.inconclusive(rule, "%s|%s" % (key_prefix, "+".join(names)), P.rel(fns[0].file),
+                                 "mutual recursion %s: no guard idiom known" % names)
+                continue
+        else:
+            f = fns[0]
         key = "%s|%s:%s" % (key_prefix, P.rel(f.file), f.name)
         calls = f.calls(f.name)
         cz = Canon(f, inline=False)
@@ -50,8 +62,15 @@ def check(ctx, rule="R8", key_prefix="recursion", roots=None):
             if guard is None:
                 continue
             gnode, gt = guard
-            first = min((x for x in gnode.walk() if x.i in f.cfg.where()), key=lambda x: x.i)
-            dominated = all(f.cfg.node_dominates(first, c) for c in calls)
+            if f.cfg is not None:
+                first = min((x for x in gnode.walk() if x.i in f.cfg.where()), key=lambda x: x.i)
+                dominated = all(f.cfg.node_dominates(first, c) for c in calls)
+            else:
+                # helper-expanded view (no CFG): the guard is a top-level statement of the body that
+                # precedes, in program order, every statement containing a recursive call
+                top = f.body.kids()
+                order = {id(n_): k_ for k_, st_ in enumerate(top) for n_ in st_.walk()}
+                dominated = gnode in top and all(order.get(id(c), -1) > top.index(gnode) for c in calls)
             bound = gt[2]
             const_bound = bound[0] == "int"
             # recursive calls pass a strictly larger value
